@@ -1,0 +1,31 @@
+//go:build verif
+
+package calcium
+
+import (
+	"context"
+
+	"github.com/projecteru2/core/store"
+	"github.com/projecteru2/core/types"
+)
+
+// VerifC21FilterNodes exposes filterNodes to the verification harness.
+func (c *Calcium) VerifC21FilterNodes(ctx context.Context, nf *types.NodeFilter) ([]*types.Node, error) {
+	return c.filterNodes(ctx, nf)
+}
+
+// VerifC21Store exposes the metadata store of this instance to the verification harness.
+func (c *Calcium) VerifC21Store() store.Store {
+	return c.store
+}
+
+// VerifC21LockedNodes runs withNodesPodLocked and reports the node map handed to the callback.
+func (c *Calcium) VerifC21LockedNodes(ctx context.Context, nf *types.NodeFilter) (names []string, err error) {
+	err = c.withNodesPodLocked(ctx, nf, func(_ context.Context, nodes map[string]*types.Node) error {
+		for name := range nodes {
+			names = append(names, name)
+		}
+		return nil
+	})
+	return names, err
+}
